@@ -13,7 +13,7 @@ from .edits import Insert, Match, Remove
 from .matching import WeightedBipartiteMatcher
 from .sequences import SequenceEdit, SequenceNode
 from .tree import Edit, TreeNode
-from .utils import HashableCounter, largest
+from .utils import HashableCounter
 
 
 class MultiSetEdit(SequenceEdit):
@@ -108,24 +108,37 @@ class MultiSetEdit(SequenceEdit):
         for kvp_edit in self._matched_kvp_edits:
             if kvp_edit.tighten_bounds():
                 return True
-        return self._matcher.tighten_bounds()
+        if self._matcher.tighten_bounds():
+            return True
+        elif not self._matcher.is_complete():
+            # The matcher's bounds were definitive before it had to choose a matching, but which elements get removed
+            # or inserted is only known once the matching is
+            bounds_before = self.bounds()
+            _ = self._matcher.matching
+            return self.bounds() != bounds_before
+        else:
+            return False
 
     def bounds(self) -> Range:
         b = self._matcher.bounds()
         for kvp_edit in self._matched_kvp_edits:
             b = b + kvp_edit.bounds()
-        if len(self.to_remove) > len(self.to_insert):
-            for edit in largest(
-                    *(Remove(to_remove=r, remove_from=self.from_node) for r in self.to_remove),
-                    n=len(self.to_remove) - len(self.to_insert),
-                    key=lambda e: e.bounds()
-            ):
-                b = b + edit.bounds()
-        elif len(self.to_remove) < len(self.to_insert):
-            for edit in largest(
-                    *(Insert(to_insert=i, insert_into=self.from_node) for i in self.to_insert),
-                    n=len(self.to_insert) - len(self.to_remove),
-                    key=lambda e: e.bounds()
-            ):
-                b = b + edit.bounds()
+        num_unmatched = len(self._to_remove_nodes) - len(self._to_insert_nodes)
+        if num_unmatched == 0:
+            return b
+        elif num_unmatched > 0:
+            unmatched = [Remove(to_remove=r, remove_from=self.from_node) for r in self._to_remove_nodes]
+            matched = set(self._matcher.matching.keys()) if self._matcher.is_complete() else None
+        else:
+            num_unmatched = -num_unmatched
+            unmatched = [Insert(to_insert=i, insert_into=self.from_node) for i in self._to_insert_nodes]
+            matched = set(i for i, _ in self._matcher.matching.values()) if self._matcher.is_complete() else None
+        if matched is not None:
+            # The matching is known, so we know exactly which elements will be removed or inserted
+            for index, edit in enumerate(unmatched):
+                if index not in matched:
+                    b = b + edit.bounds()
+        else:
+            costs = sorted(edit.bounds().upper_bound for edit in unmatched)
+            b = b + Range(sum(costs[:num_unmatched]), sum(costs[-num_unmatched:]))
         return b
